@@ -121,10 +121,39 @@ def coq_make(targets, timeout=3000):
     return rc == 0, out, dt
 
 
+def _coqc_slot():
+    """At most NPROC coqc processes machine-wide (checks of several properties may run side by side, each with its own pool of
+    workers): a slot is an flock on one of NPROC files under the system's temporary directory; None when that cannot be had
+    (the run then proceeds without the limit)."""
+    import fcntl
+    import tempfile
+    d = os.path.join(tempfile.gettempdir(), "heph-coqc-slots")
+    try:
+        os.makedirs(d, exist_ok=True)
+        t_end = time.time() + 1800
+        while time.time() < t_end:
+            for k in range(NPROC):
+                f = open(os.path.join(d, "slot%d" % k), "w")
+                try:
+                    fcntl.flock(f, fcntl.LOCK_EX | fcntl.LOCK_NB)
+                    return f
+                except OSError:
+                    f.close()
+            time.sleep(0.1)
+    except OSError:
+        pass
+    return None
+
+
 def coqc_file(path, timeout=600):
     """Compile one file that lives under coq/ with the project's logical path."""
     cmd = ["coqc", "-q", "-Q", ".", "Heph", path]
-    rc, out, dt = run(cmd, timeout, cwd=COQ, env=coq_env())
+    slot = _coqc_slot()
+    try:
+        rc, out, dt = run(cmd, timeout, cwd=COQ, env=coq_env())
+    finally:
+        if slot is not None:
+            slot.close()
     return rc, out, dt
 
 
